@@ -121,6 +121,37 @@ func c08JudgeInner(stream []byte, crc bool, readSize, srcChunk int) (class, deta
 	if o.CloseErr == nil && o.ReadErr == io.EOF {
 		verdict = 1
 	}
+	// a consumer that knows the size takes exactly that many bytes and closes without having seen the
+	// end of the stream: a success of Close must be as sound as after a complete read
+	if declared > 0 && declared <= int64(limit) {
+		o2 := libDecodeStop(stream, crc, []int{readSize}, srcChunk, limit, int(declared))
+		if o2.Panic != "" {
+			return "panic|" + o2.Site, o2.Panic, true, 0
+		}
+		if o2.Stopped && o2.CloseErr == nil {
+			want := ref.Data
+			if int64(len(want)) > declared {
+				want = want[:declared]
+			}
+			switch {
+			case ref.Truncated:
+				return "close-ok-on-truncated-stream|stopped-at-size", fmt.Sprintf("canonical decoding runs out of bits after %d bytes", len(ref.Data)), nontrivial, 1
+			case !bytes.Equal(o2.Data, want):
+				return "close-ok-wrong-bytes|stopped-at-size", fmt.Sprintf("lib %q canonical %q", core.Trunc(string(o2.Data), 60), core.Trunc(string(want), 60)), nontrivial, 1
+			case crc:
+				min, ok := 4+(ref.BitsUsed+7)/8, false
+				for l := min; l <= len(post); l++ {
+					if rl.CRC16(post[:l]) == hdrCRC {
+						ok = true
+						break
+					}
+				}
+				if !ok {
+					return "close-ok-bad-crc|stopped-at-size", fmt.Sprintf("after reading exactly the %d declared bytes Close returned nil, header CRC %04x matches no prefix of the stream of at least %d bytes", declared, hdrCRC, min), nontrivial, 1
+				}
+			}
+		}
+	}
 	return "", "", nontrivial, verdict
 }
 
